@@ -2024,3 +2024,14 @@ PROPS["C02"]["rule"] += (" Tag tie:<place>:<kind>:<top|neg|nested> (c02::ties, f
     "and once more negative or nested in arrays / objects (seven shapes). Literals of more than 120 digits: the quick tier keeps the expansion, its successor and the "
     "768-digit cuts at the two ends of the range, top level only (the driver's float_roundtrip model costs up to 0.7 s on such a case); thorough keeps all at the fixed "
     "places and a tenth of the sampled ones. Verdict: the existing ones of pv (denotation; every number of the returned value against its literal, nearest-even).")
+PROPS["C02"]["rule"] += (" Op hist32 <cfg> <two|fld|seq> <str|slice|reader> <first> <second> (c02::hist32, every configuration; driver Drv/C02.lean): a HISTORY on one "
+    "serde_json::Deserializer - an f32 is requested from `first`, then a Value is read from the SAME Deserializer: `two` = f32::deserialize(&mut de) then "
+    "Value::deserialize(&mut de) until the input ends (a container `first` is not consumed by the failing request and is the first Value read); `fld` = a struct "
+    "{gain: Option<f32> via deserialize_with = f32::deserialize(d).ok(), payload: Value}; `seq` = [first, second] through a visitor that tolerates a failing "
+    "next_element::<f32>(). Nineteen first items (strings, null, true / false, numbers outside the f32 range, containers: the request fails; numbers: it succeeds - "
+    "control) x modes x sources x three fixed payloads, plus 600 (thorough 6000) random payloads (floats that tell f32 rounding from f64 rounding - 0.1, 16777217.0, "
+    "123456789.125, 1.2345678901234567e30, -2.5e-40, the f32 range ends, random doubles -, integers, strings, nested in arrays / objects), separators and reader "
+    "chunkings. Model: every Value read after the request is what Model.Machine (MachineAp / MachineRv per configuration) returns on that item's text ALONE from the same "
+    "kind of source (no state of the Deserializer outlives an item: do_deserialize_f32 clears single_precision on every return). Specification: Spec.Canon.expected of "
+    "the item's text, and every number of the value against its literal (Spec.Decimal / Spec.Ieee) - verdict `C02 after an f32 request on the same Deserializer`. "
+    "The outcome of the f32 request itself is echoed (spec-only part: C02 does not talk about it).")
